@@ -69,6 +69,16 @@ func suiteStream(rn *runner, r *rng, tier string) {
 	if tier == "thorough" {
 		n = 8000
 	}
+	// streams beyond the 10 MiB chunk buffer: a line longer than the buffer in short reads; several chunks held to the end
+	bigStreamCase(rn, r.fork(), "longline", 1, 0, 4096, "stream")
+	bigStreamCase(rn, r.fork(), "longline", 1, 0, 509, "stream")
+	bigStreamCase(rn, r.fork(), "holdall", 4, 2, 0, "stream")
+	if tier == "thorough" {
+		for k := 0; k < 6; k++ {
+			bigStreamCase(rn, r.fork(), "longline", 1, 0, []int{7, 64, 1000, 4095, 65536, 1 << 20}[k], "stream")
+			bigStreamCase(rn, r.fork(), "holdall", 3+k, 1+k%4, []int{0, 1 << 20, 4096}[k%3], "stream")
+		}
+	}
 	for i := 0; i < n; i++ {
 		cr := r.fork()
 		cfg := defaultCfg(cr)
